@@ -202,6 +202,10 @@ func vcScenC05(t *vcTrial) {
 		vcRunC05PrepareClose(t, r.rng(1, 3), []string{"tcp", "unix"}[r.intn(2)])
 		return
 	}
+	if r.intn(80) == 0 {
+		vcRunC05RegisterFails(t)
+		return
+	}
 	// actors besides the handler
 	pool := []string{"fin", "rst", "input", "shutdown"}
 	for _, a := range pool {
@@ -969,6 +973,22 @@ func vcRunC05RegisterFails(t *vcTrial) {
 	}
 	if n := len(audit.closesOf(rec.ID)); n != 1 && !t.Violated() {
 		t.Violate("C05", "descriptor_closes", "failed registration: descriptor %d closed %d time(s), want 1", rec.FD, n)
+	}
+	// ... by whichever owner: the accept path holds a second handle (the Conn it was given) on the
+	// same number; no other netpoll descriptor exists in this trial that could have taken the number
+	audit.mu.Lock()
+	nAny, notOpen := 0, 0
+	for _, e := range audit.fds {
+		if e.Kind < 0 && e.FD == rec.FD {
+			nAny++
+			if !e.Open {
+				notOpen++
+			}
+		}
+	}
+	audit.mu.Unlock()
+	if (nAny != 1 || notOpen > 0) && !t.Violated() {
+		t.Violate("C05", "descriptor_closes", "failed registration: close was issued %d time(s) on descriptor number %d (%d of them when it was not open), want once", nAny, rec.FD, notOpen)
 	}
 	if n := audit.freeablesOf(opPtr, ownedSeq); n != 1 && !t.Violated() {
 		t.Violate("C05", "registration_release", "failed registration: poller slot released %d time(s), want 1", n)
